@@ -434,6 +434,51 @@ def _invalid_switch_case(args):
     return cnt, out
 
 
+def _int_axis_case(args):
+    """An integer-typed feature on an axis (frame, index) and integer
+    positions: the densities are those for the same numbers as floats."""
+    seed, = args
+    import dclab
+    out = []
+    cnt = 0
+    rs = np.random.RandomState(seed + 21)
+    n = 40
+    fr = np.cumsum(rs.randint(1, 5, n)).astype(np.int64)
+    y = np.round(rs.uniform(0.01, 0.2, n), 4)
+    di = dclab.new_dataset({"frame": fr, "deform": y,
+                            "area_um": fr.astype(float)})
+    m = np.arange(n) % 4 != 0
+    di.filter.manual[:] = m
+    di.apply_filter()
+    ipos = (np.array([3, 20, 50, 90], dtype=np.int64),
+            np.array([0.05, 0.1, 0.15, 0.02]))
+    for kt in ("histogram", "gauss", "multivariate"):
+        for yscale in ("linear", "log"):
+            for pos in (None, ipos):
+                cnt += 1
+                case = {"kind": "int-axis", "seed": seed, "kde": kt,
+                        "yscale": yscale, "positions": pos is not None}
+                kw = dict(kde_type=kt, yscale=yscale)
+                a = call(di.get_kde_scatter, xax="frame", yax="deform",
+                         positions=pos, **kw)
+                fpos = None if pos is None else (pos[0].astype(float),
+                                                 pos[1])
+                b = call(di.get_kde_scatter, xax="area_um", yax="deform",
+                         positions=fpos, **kw)
+                ok = not isinstance(a, Raised) and not isinstance(b, Raised) \
+                    and np.asarray(a).shape == np.asarray(b).shape \
+                    and np.allclose(np.asarray(a, float),
+                                    np.asarray(b, float), rtol=1e-9,
+                                    atol=0, equal_nan=True)
+                if not ok:
+                    out.append(violation(
+                        "dclab.kde_methods:kde_" + kt, "depends-on-dtype",
+                        case, f"{kt}/{yscale}: integer x axis gives "
+                        f"{np.asarray(a)[:5]!r}, the same numbers as "
+                        f"floats {np.asarray(b)[:5]!r}", {"kde": kt}))
+    return cnt, out
+
+
 def _bigtsv_case(args):
     """tsv export of a large filtered dataset (shared with C02)."""
     from .c02 import bigtsv_violations
@@ -506,6 +551,7 @@ def run(ctx):
     res += par.pmap(_quantile_case, [(ctx.seed,)])
     res += par.pmap(_bigtsv_case, [(ctx.scratch,)])
     res += par.pmap(_invalid_switch_case, [(ctx.seed,)])
+    res += par.pmap(_int_axis_case, [(ctx.seed,)])
     res += par.pmap(_history_case, [(lo, lo + 3, ctx.seed)
                                     for lo in range(0, 36, 3)])
     viols = []
@@ -543,6 +589,9 @@ def replay(case, ctx):
             vs += _history_case((lo, lo + 3, case["seed"]))[1]
         return [v for v in vs if v["case"]["a"] == case["a"]
                 and v["case"]["b"] == case["b"]]
+    if case["kind"] == "int-axis":
+        return [v for v in _int_axis_case((case["seed"],))[1]
+                if v["case"] == case]
     if case["kind"] == "invalid-switch":
         return [v for v in _invalid_switch_case((case["seed"],))[1]
                 if v["case"] == case]
